@@ -28,14 +28,16 @@ MODEL_BASE = {"__iter__": 105, "_iter_cached": 124}
 
 # the statements of `_iter_cached` in the numbering of Model/Cache.lean (124 = the `def` line).  The real function is
 # aligned to this listing by its TEXT (comments and blank lines dropped), so statements the model folds into another step
-# (the `except Exception:` handler of the D-C11-genraise repair: locals only) get no model line ("x<rel>": executed with
+# (the `except Exception:` handler of the D-C11-genraise repair: locals only; `gen = None` and the generation test
+# `if cache is self._cache:` of the D-C10-stale repair: a local and a comparison that is constantly true while no member is added) get no model line ("x<rel>": executed with
 # the previous pause point, never a pause point of their own) and do not shift the lines after them.
 MODEL_LISTING = {"_iter_cached": [
     "def _iter_cached(self):", "i = 0", "gen = self._cache_gen", "cache = self._cache", "acquire = self._cache_lock.acquire",
-    "release = self._cache_lock.release", "while gen:", "if i == len(cache):", "acquire()", "try:", "if self._cache_complete:",
+    "release = self._cache_lock.release", "while gen:", "if i == len(cache):", "acquire()", "try:",
+    "if self._cache_complete and cache is self._cache:",
     "break", "try:", "for j in range(10):", "cache.append(advance_iterator(gen))", "except StopIteration:",
-    "self._cache_gen = gen = None", "self._cache_complete = True", "break", "finally:", "release()", "yield cache[i]", "i += 1",
-    "while i < self._len:", "yield cache[i]", "i += 1"]}
+    "self._cache_gen = None", "self._cache_complete = True", "break", "finally:", "release()", "yield cache[i]", "i += 1",
+    "while i < len(cache):", "yield cache[i]", "i += 1"]}
 
 
 def align_lines(func, listing, base):
